@@ -43,5 +43,6 @@ if [ $R0 = 0 ] && [ $R1 != 0 ] && [ $R2 = 0 ]; then
  "ran": "tools/seed_confirm.sh $P $N $CRATE $PROP (scratch worktree + isolated ./check via tools/mutcheck.sh)"
 }
 EOM
+  /verif/tools/seedmeta_keep.py $D
   echo "kept -> $D"
 fi
